@@ -321,6 +321,12 @@ BaseVals ==
     unset  |-> [kind |-> "wide", canon |-> <<"unset">>, sp |-> <<Sp("unset"), Sp("UNSET")>>],
     inherit |-> [kind |-> "wide", canon |-> <<"inherit">>, sp |-> <<Sp("inherit")>>],
     initial |-> [kind |-> "wide", canon |-> <<"initial">>, sp |-> <<Sp("initial")>>],
+    revert |-> [kind |-> "wide", canon |-> <<"revert">>, sp |-> <<Sp("revert"), Sp("REVERT")>>],
+    \* opaque functions in a length position: atomic values (never reduced); min()/max() are newer syntax
+    \* that a browser may reject (feature "math-fn"), env() and an irreducible calc() are not
+    envtop |-> [kind |-> "lenfn", canon |-> <<"env(safe-area-inset-top)">>, sp |-> <<Sp("env(safe-area-inset-top)")>>],
+    max12  |-> [kind |-> "lenfn", canon |-> <<"max(1px,2%)">>, sp |-> <<SpF("max(1px,2%)", "math-fn"), SpF("max(1px, 2%)", "math-fn")>>],
+    min12  |-> [kind |-> "lenfn", canon |-> <<"min(2px,5%)">>, sp |-> <<SpF("min(2px,5%)", "math-fn"), SpF("MIN(2px , 5%)", "math-fn")>>],
     \* custom properties: token stream with numbers normalised and calc() reduced (units kept, colours as written)
     cust1  |-> [kind |-> "custom", canon |-> <<"0.5">>, sp |-> <<Sp("0.50"), Sp(" 0.50 "), Sp(".5")>>],
     cust2  |-> [kind |-> "custom", canon |-> <<"#FF0000 0px">>, sp |-> <<Sp("#FF0000 0px"), Sp("#FF0000   0px")>>],
@@ -386,13 +392,14 @@ WFDecl(d) ==
   /\ LET s == Shape(d.p) ks == KindsOf(d) IN
      \/ Wide(d) /\ s # "?"
      \/ s = "color" /\ Len(ks) = 1 /\ ks[1] = "color"
-     \/ s = "len" /\ Len(ks) = 1 /\ ks[1] \in {"length", "var"}
-     \/ s = "box" /\ Len(ks) \in 1..4 /\ \A i \in 1..Len(ks) : ks[i] = "length"
+     \/ s = "len" /\ Len(ks) = 1 /\ ks[1] \in {"length", "var", "lenfn"}
+     \/ s = "box" /\ Len(ks) \in 1..4 /\ \A i \in 1..Len(ks) : ks[i] \in {"length", "lenfn"}
      \/ s = "box" /\ Len(ks) = 1 /\ ks[1] = "var"        \* a shorthand whose value is one var(): its longhands are pending
-     \/ s = "radius" /\ \A i \in 1..Len(ks) : ks[i] \in {"length", "slash"} /\ d.v[i] # "auto"
+     \/ s = "radius" /\ \A i \in 1..Len(ks) : ks[i] \in {"length", "slash", "lenfn"} /\ d.v[i] # "auto"
                      /\ \/ SlashAt(d) = {} /\ Len(ks) \in 1..4
                         \/ \E k \in 2..(Len(ks) - 1) : SlashAt(d) = {k} /\ k - 1 <= 4 /\ Len(ks) - k <= 4
-     \/ s = "corner" /\ Len(ks) \in 1..2 /\ \A i \in 1..Len(ks) : ks[i] = "length" /\ d.v[i] # "auto"
+     \/ s = "corner" /\ Len(ks) \in 1..2 /\ \A i \in 1..Len(ks) : ks[i] \in {"length", "lenfn"} /\ d.v[i] # "auto"
+     \/ s = "corner" /\ Len(ks) = 1 /\ ks[1] = "var"
      \/ s = "font" /\ FontParse(d).ok
      \/ s = "weight" /\ Len(ks) = 1 /\ ks[1] = "weight"
      \/ s = "family" /\ Len(ks) = 1 /\ ks[1] = "family"
@@ -426,7 +433,7 @@ Expand(d, U) ==
         v == IF k > Len(d.v) THEN h ELSE SubSeq(d.v, k + 1, Len(d.v))
     IN {<<Corners[i], Canon(Side14(h, i)) \o Canon(Side14(v, i))>> : i \in 1..4}
   ELSE IF s = "corner" THEN
-    {<<d.p, IF Wide(d) THEN Canon(d.v[1]) ELSE Canon(d.v[1]) \o Canon(d.v[Len(d.v)])>>}
+    {<<d.p, IF Wide(d) \/ Kind(d.v[1]) = "var" THEN Canon(d.v[1]) ELSE Canon(d.v[1]) \o Canon(d.v[Len(d.v)])>>}
   ELSE IF s = "font" THEN
     IF Wide(d) THEN {<<FontLonghands[i], Canon(d.v[1])>> : i \in 1..7} ELSE
     LET f == FontParse(d) IN
